@@ -1,5 +1,7 @@
 package corr
 
+import "reflect"
+
 func init() {
 	Runners["C12"] = runC12
 	Runners["C02"] = runC02
@@ -118,6 +120,12 @@ func runC02(p *Plan) {
 				cands := OperandsNear(tr, el, found)
 				right := cands[tr.Intn(len(cands))]
 				op := []int{0, 1, 2, 3, 4, 5, 6, 7, 8, 9, -1, 100}[tr.Intn(12)]
+				if tr.Chance(1, 5) {
+					rf := []Form{FormVal, FormPtr, FormPtrPtr, FormNilP}[tr.Intn(4)]
+					if rf != FormNilP || len(path) > 0 {
+						OpReflectGet(p.Out, e, vc.v, rf, path)
+					}
+				}
 				switch tr.Intn(6) {
 				case 0:
 					OpGet(p.Out, e, vc.v, pickForm(tr), path, tr.Bool())
@@ -132,6 +140,16 @@ func runC02(p *Plan) {
 					src := GenSrc(tr, kind)
 					if tr.Chance(1, 10) {
 						src = SrcSpec{Kind: "foreign", Form: []string{"foreign", "foreignp"}[tr.Intn(2)]}
+					}
+					if found && tr.Chance(1, 3) {
+						// the addressed element is a struct / map / slice: a typed-nil pointer to its own type
+						t := el.Type()
+						for t.Kind() == reflect.Ptr {
+							t = t.Elem()
+						}
+						if (t.Kind() == reflect.Struct || t.Kind() == reflect.Map || t.Kind() == reflect.Slice) && !isByteSlice(t) {
+							src = SrcSpec{Kind: "foreign", Form: "ownnilp", Own: t}
+						}
 					}
 					f := pickForm(tr)
 					if f == FormVal {
